@@ -19,7 +19,7 @@ INFO = dict(
 
 def run(ctx):
     res = Result()
-    n = ctx.n(5, 8 if ctx.search else 30)
+    n = ctx.n(3, 6 if ctx.search else 30)
     nsteps = 8
     seeds = [ctx.rng.randrange(1 << 30) for _ in range(n)]
     tasks = [dict(fn="tasks_rt:record_case", args=dict(seed=s, nsteps=nsteps), timeout=900) for s in seeds]
